@@ -144,6 +144,9 @@ func runC18(c *Ctx) {
 				c.Ob("C18-D4", "sio.handlerStore.getAll/same-region", cl.Pos(), SameRegion(li, ld, cl, "e.mu"), "reading and clearing funcsOnce are not in one critical section of e.mu: two concurrent occurrences could both take the same Once handler")
 			}
 		}
+		for _, cl := range clears {
+			c.Ob("C18-D4", "sio.handlerStore.getAll/exclusive", cl.Pos(), li.HoldsW(cl, "e.mu"), "funcsOnce is cleared while e.mu is held only in read mode (or not at all): concurrent occurrences run getAll in parallel and all take the same Once handlers; held="+li.Held(cl).String())
+		}
 		for _, fld := range []string{"funcs", "subs"} {
 			st := findInstrs(fn, storePred(`e\.`+fld))
 			pos := fn.Pos()
@@ -191,6 +194,9 @@ func runC18(c *Ctx) {
 			for _, d := range dels {
 				c.Ob("C18-D4", "sio.eventHandlerStore.getAll/same-region", d.Pos(), SameRegion(li, ld, d, "e.mu"), "lookup and delete of eventsOnce[eventName] are not in one critical section of e.mu")
 			}
+		}
+		for _, d := range dels {
+			c.Ob("C18-D4", "sio.eventHandlerStore.getAll/exclusive", d.Pos(), li.HoldsW(d, "e.mu"), "eventsOnce[eventName] is deleted while e.mu is held only in read mode (or not at all): concurrent occurrences all take the same Once handlers; held="+li.Held(d).String())
 		}
 		bad := findInstrs(fn, orPred(isDelete("e.events"), storePred(`e\.events`), func(in ssa.Instruction) bool {
 			mu, ok := in.(*ssa.MapUpdate)
@@ -272,6 +278,45 @@ func runC18(c *Ctx) {
 		for _, fld := range []string{"funcs", "funcsOnce"} {
 			skip, _ := CanReachExitAvoiding(fn, nil, storeValPred(`e\.`+fld, `nil|make\(.*`))
 			c.Ob("C18-D5", "sio.handlerStore.offAll/clears-"+fld, fn.Pos(), !skip, "offAll does not clear e."+fld+" on every path")
+		}
+	}
+
+	// ---------------------------------------------------------------- D8
+	c.Rule("C18-D8", "Off wrappers forward one value per argument: at every call of handlerStore.off / eventHandlerStore.off made by a function with a variadic handler parameter, the length of the slice handed on "+
+		"equals the length of that parameter (zone prover: len(arg) - len(param) = 0 on every abstract state reaching the call) — the store reads an EMPTY list as 'remove every handler', so a wrapper "+
+		"that filters or drops arguments turns Off(name, f) into Off(name)", 15)
+	{
+		ip := newInterproc(p, false)
+		offs := map[*ssa.Function]bool{originOf(p.Fn("sio", "handlerStore.off")): true, p.Fn("sio", "eventHandlerStore.off"): true}
+		for _, caller := range p.SrcFuncs() {
+			if len(caller.Blocks) == 0 || !caller.Signature.Variadic() || len(caller.Params) == 0 {
+				continue
+			}
+			parIdx := len(caller.Params) - 1
+			for _, cs := range Calls(caller) {
+				f := cs.Common().StaticCallee()
+				if f == nil || !offs[originOf(f)] || cs.Instr.Parent() != caller {
+					continue
+				}
+				args := cs.Common().Args
+				argIdx := len(args) - 1
+				ok := args[argIdx] == ssa.Value(caller.Params[parIdx])
+				detail := "the variadic parameter is forwarded as it is"
+				if !ok {
+					ci, _ := cs.Instr.(ssa.CallInstruction)
+					r := ip.lenRelAtCall(caller, ci, argIdx, parIdx)
+					ok = r.set && r.okLo && r.okHi && r.lo == 0 && r.hi == 0
+					show := func(v int64, k bool) string {
+						if !k {
+							return "?"
+						}
+						return fmt.Sprint(v)
+					}
+					detail = fmt.Sprintf("len(%s) - len(%s) is in [%s, %s] at the call (must be exactly 0: an argument that is dropped on the way makes the list shorter, and an empty list removes every handler of the event)",
+						trunc(Term(args[argIdx]), 40), vname(caller.Params[parIdx]), show(r.lo, r.okLo && r.set), show(r.hi, r.okHi && r.set))
+				}
+				c.Ob("C18-D8", FuncName(caller)+"→"+FuncName(originOf(f)), cs.Pos(), ok, detail)
+			}
 		}
 	}
 
